@@ -6,6 +6,11 @@ import random
 import time
 
 MAX_VIOL_PER_KIND = 25
+STOP_AFTER = int(os.environ.get("VF_STOP_AFTER", "0") or 0)
+
+
+class StopWorkload(BaseException):
+    """raised by Ctx.violation when VF_STOP_AFTER witnesses were recorded (never set by a registered command)"""
 MAX_SAMPLES = 4
 
 
@@ -84,6 +89,11 @@ class Ctx:
     def violation(self, kind, **witness):
         n = self.viol_counts.get(kind, 0)
         self.viol_counts[kind] = n + 1
+        if STOP_AFTER and sum(self.viol_counts.values()) >= STOP_AFTER and n < MAX_VIOL_PER_KIND:
+            pass
+        elif STOP_AFTER and sum(self.viol_counts.values()) >= STOP_AFTER:
+            # mutation / seeded-change runs only (VF_STOP_AFTER): enough witnesses, end this worker
+            raise StopWorkload()
         if n < MAX_VIOL_PER_KIND:
             w = jsonable(witness)
             w["kind"] = kind
